@@ -1650,19 +1650,26 @@ class Scalar(Qube):
 
             # Without this step, negative int exponents on int values truncate
             # to 0.
+            # Only the exponents that are in use decide this. The numbers
+            # underneath the mask of the exponent are meaningless: they are
+            # replaced by zero, so that a hidden negative one can neither select
+            # the data type of the result nor make int ** int fail.
+            expo_values = expo._values_
             if expo.is_int():
-                if expo._shape_:
-                    if np.any(expo._values_ < 0):
-                        expo = expo.as_float()
-                elif expo._values_ < 0:
+                if np.any((expo_values < 0) & expo.antimask):
                     expo = expo.as_float()
+                    expo_values = expo._values_
+                elif np.shape(expo._mask_):
+                    expo_values = np.where(expo._mask_, 0, expo_values)
+                elif expo._mask_:
+                    expo_values = expo_values * 0
 
             # Plow forward with the results blindly, then mask nan and inf.
             # Zero to a negative power creates a RuntTimeWarning, which needs to
             # be suppressed.
             with warnings.catch_warnings():
                 warnings.simplefilter('ignore')
-                new_values = self._values_ ** expo._values_
+                new_values = self._values_ ** expo_values
 
             new_mask = Qube.or_(self._mask_, expo._mask_)
             invalid = np.isnan(new_values) | np.isinf(new_values)
